@@ -1,6 +1,8 @@
 import CDVProofs.EncodeRead
 import CDVProofs.EncTables
 import CDVProofs.EncodeLines
+import CDVProofs.EncodeOps
+import CDVProofs.EncodeFree
 import CDVProofs.Props.C09
 /-! # C03 — encoding any well-formed CodeData yields code that says what the data says
 
@@ -90,6 +92,30 @@ theorem C03_operand_in_table {α} (keyEq : α → α → Bool) (hk : KeyEquiv ke
   obtain ⟨_, hext⟩ := FromArgs.steps_spec hk hsteps i1
   obtain ⟨a2, h2, e2⟩ := hext i a1 h1
   exact ⟨a2, FromArgs.toTuple_get t2 tbl htup i a2 h2, hk.trans _ _ _ e1 e2⟩
+
+/-- **Every operand resolves to exactly the given name / variable / constant, with its index inside its table** — for
+    `blocks_to_bytes` as a whole.  Whenever it returns: the bytes are the assembly of the instructions with some operand
+    list, and for every instruction that names a name, a local, a cell variable or a constant, that operand is an index
+    into the emitted table at which exactly that name / variable sits (for a constant: a constant with the same
+    `constant_key`, so CPython-distinct constants are never exchanged) — through parameter seeding, the docstring slot,
+    position overrides, additional arguments and the width loop.  (Free-variable operands: `C03_free_operands`.) -/
+theorem C03_operands_resolve (v : Ver) (blocks : List (List Instr)) (addArgs : List Arg) (fv : List PStr) (tp : Option Function)
+    (out : BlocksOut) (h : blocksToBytes v blocks addArgs fv tp = .ok out) :
+    ∃ args : List Int, out.code = (emit blocks.flatten args 0).1 ∧ args.length = blocks.flatten.length ∧
+      ∀ (j : Nat) (ins : Instr) (a : Int), blocks.flatten[j]? = some ins → args[j]? = some a → OperandInTables out ins.arg a :=
+  blocksToBytes_operands v blocks addArgs fv tp out h
+
+/-- **Free variables are as described.**  Whenever `blocks_to_bytes` returns, every instruction that names a free variable
+    carries `len(co_cellvars) + (index of the variable in freevars)`, with the `co_cellvars` that is actually emitted — which
+    is how CPython resolves it (`arg ≥ len(co_cellvars)` → `co_freevars[arg - len(co_cellvars)]`).  The cell variables are
+    all collected, from the instructions *and* from the additional arguments, before the first operand is resolved, and the
+    table does not grow afterwards (the invariant behind repaired defect cd20ca2; seeded change C01-r3 breaks exactly it). -/
+theorem C03_free_operands (v : Ver) (blocks : List (List Instr)) (addArgs : List Arg) (fv : List PStr) (tp : Option Function)
+    (out : BlocksOut) (h : blocksToBytes v blocks addArgs fv tp = .ok out) :
+    ∃ args : List Int, out.code = (emit blocks.flatten args 0).1 ∧
+      ∀ (j : Nat) (ins : Instr) (s : PStr) (a : Int), blocks.flatten[j]? = some ins → ins.arg = .free s → args[j]? = some a →
+        ∃ idx, indexOfStr s fv = some idx ∧ a = ((out.cellvars.length + idx : Nat) : Int) :=
+  blocksToBytes_free v blocks addArgs fv tp out h
 
 /-- the empty tables `blocks_to_bytes` starts from satisfy the invariant -/
 theorem C03_empty_inv {α} (keyEq : α → α → Bool) : (({} : FromArgs α)).Inv keyEq := by
